@@ -308,19 +308,7 @@ Definition lift_bool {A B} (r : list noev * outcome (pv A)) : list noev * outcom
   | (_, Exc x) => ([], Exc x)
   end.
 
-(* ================================================================== modifies_known_mutable
-   objects: the four exact builtin types; _mutable_spec: the table, each row's type being its
-   isinstance predicate *)
-Definition row_value (r : row) : pv btype := PTuple [PTy (fun T => mem_b T (row_inst r)); PSet (row_attrs r)].
-Definition mkm_globals (spec : list row) (n : string) : pv btype :=
-  if String.eqb n "_mutable_spec" then PTuple (map row_value spec) else PNone.
-Definition src_mkm (spec : list row) (T : btype) (attr : string) : list noev * outcome (pv btype) :=
-  run btype noev (mkm_globals spec) yes no_getattr no_getitem no_call exn_isa body_mkm
-      [(%(mkm_obj)s, PObj T); (%(mkm_attr)s, PStr attr)].
-
-%(mkm_proof)s
-
-(* ================================================================== is_internal_attribute
+(* ---- is_internal_attribute / is_safe_attribute: worlds and interpreted source (definitions)
    objects: the branch of the isinstance chain ([okind]); a class of the `types` module is the
    predicate "is that branch" *)
 Definition okind_eqb (a b : okind) : bool :=
@@ -349,6 +337,29 @@ Definition src_internal (tb : tables) (k : okind) (attr : string) : list noev * 
   run okind noev (internal_globals tb) yes no_getattr no_getitem no_call exn_isa body_internal
       [(%(int_obj)s, PObj k); (%(int_attr)s, PStr attr)].
 
+Definition safe_call (tb : tables) (f : string) (args : list (pv okind)) : list noev * outcome (pv okind) :=
+  match args with
+  | [PObj k; PStr a] => if String.eqb f "is_internal_attribute" then src_internal tb k a else ([], Exc "NameError")
+  | _ => ([], Exc "TypeError")
+  end.
+Definition src_safe (tb : tables) (k : okind) (attr : string) : list noev * outcome (pv okind) :=
+  run okind noev no_globals yes no_getattr no_getitem (safe_call tb) exn_isa body_safe
+      [(%(safe_self)s, PNone); (%(safe_obj)s, PObj k); (%(safe_attr)s, PStr attr); (%(safe_value)s, PNone)].
+
+
+(* ================================================================== modifies_known_mutable
+   objects: the four exact builtin types; _mutable_spec: the table, each row's type being its
+   isinstance predicate *)
+Definition row_value (r : row) : pv btype := PTuple [PTy (fun T => mem_b T (row_inst r)); PSet (row_attrs r)].
+Definition mkm_globals (spec : list row) (n : string) : pv btype :=
+  if String.eqb n "_mutable_spec" then PTuple (map row_value spec) else PNone.
+Definition src_mkm (spec : list row) (T : btype) (attr : string) : list noev * outcome (pv btype) :=
+  run btype noev (mkm_globals spec) yes no_getattr no_getitem no_call exn_isa body_mkm
+      [(%(mkm_obj)s, PObj T); (%(mkm_attr)s, PStr attr)].
+
+%(mkm_proof)s
+
+(* ================================================================== is_internal_attribute *)
 Theorem is_internal_attribute_source_eq_model : forall tb k attr,
   src_internal tb k attr = ([], Norm (PBool (is_internal_attribute tb k attr))).
 Proof.
@@ -361,15 +372,6 @@ Proof.
 Qed.
 
 (* ================================================================== SandboxedEnvironment.is_safe_attribute *)
-Definition safe_call (tb : tables) (f : string) (args : list (pv okind)) : list noev * outcome (pv okind) :=
-  match args with
-  | [PObj k; PStr a] => if String.eqb f "is_internal_attribute" then src_internal tb k a else ([], Exc "NameError")
-  | _ => ([], Exc "TypeError")
-  end.
-Definition src_safe (tb : tables) (k : okind) (attr : string) : list noev * outcome (pv okind) :=
-  run okind noev no_globals yes no_getattr no_getitem (safe_call tb) exn_isa body_safe
-      [(%(safe_self)s, PNone); (%(safe_obj)s, PObj k); (%(safe_attr)s, PStr attr); (%(safe_value)s, PNone)].
-
 Theorem is_safe_attribute_source_eq_model : forall tb k attr,
   src_safe tb k attr = ([], Norm (PBool (is_safe_attribute tb k attr))).
 Proof.
@@ -377,6 +379,24 @@ Proof.
   cbn -[src_internal]. rewrite is_internal_attribute_source_eq_model.
   destruct (prefix "_" attr) eqn:Hp; cbn; [reflexivity|].
   destruct (is_internal_attribute tb k attr); reflexivity.
+Qed.
+
+(* ================================================================== is_internal_attribute / is_safe_attribute, last branch only
+   (instances of ordinary classes and builtin containers: all the immutable sandbox's equations need) *)
+Theorem is_internal_attribute_source_eq_model_other : forall tb attr,
+  src_internal tb KOther attr = ([], Norm (PBool (is_internal_attribute tb KOther attr))).
+Proof.
+  intros tb attr. unfold src_internal, body_internal, is_internal_attribute, starts_dunder, run.
+  cbn; try reflexivity.
+Qed.
+
+Theorem is_safe_attribute_source_eq_model_other : forall tb attr,
+  src_safe tb KOther attr = ([], Norm (PBool (is_safe_attribute tb KOther attr))).
+Proof.
+  intros tb attr. unfold src_safe, body_safe, is_safe_attribute, starts_underscore, run.
+  cbn -[src_internal]. rewrite is_internal_attribute_source_eq_model_other.
+  destruct (prefix "_" attr) eqn:Hp; cbn; [reflexivity|].
+  destruct (is_internal_attribute tb KOther attr); reflexivity.
 Qed.
 
 (* ================================================================== ImmutableSandboxedEnvironment.is_safe_attribute
@@ -395,7 +415,7 @@ Theorem immutable_is_safe_attribute_source_eq_model : forall tb spec T attr,
   src_imm tb spec T attr = ([], Norm (PBool (immutable_is_safe_attribute tb spec T attr))).
 Proof.
   intros tb spec T attr. unfold src_imm, body_imm, immutable_is_safe_attribute, run.
-  cbn -[src_safe src_mkm]. rewrite is_safe_attribute_source_eq_model.
+  cbn -[src_safe src_mkm]. rewrite is_safe_attribute_source_eq_model_other.
   destruct (is_safe_attribute tb KOther attr); cbn -[src_mkm]; [|reflexivity].
   rewrite modifies_known_mutable_source_eq_model.
   destruct (modifies_known_mutable spec T attr); reflexivity.
@@ -667,13 +687,14 @@ Proof.
 Qed.'''
 
 
-SECTIONS = ("mkm", "internal", "safe", "imm", "access", "call", "immcall")
-NEEDS = {"mkm": (), "internal": (), "safe": ("internal",), "imm": ("mkm", "internal", "safe"),
+SECTIONS = ("mkm", "internal", "safe", "other", "imm", "access", "call", "immcall")
+NEEDS = {"mkm": (), "internal": (), "safe": ("internal",), "other": (), "imm": ("mkm", "other"),
          "access": ("internal", "safe"), "call": (), "immcall": ("mkm",)}
 THEOREMS = {
     "mkm": ["modifies_known_mutable_source_eq_model"],
     "internal": ["is_internal_attribute_source_eq_model"],
     "safe": ["is_safe_attribute_source_eq_model"],
+    "other": ["is_internal_attribute_source_eq_model_other", "is_safe_attribute_source_eq_model_other"],
     "imm": ["immutable_is_safe_attribute_source_eq_model"],
     "access": ["getattr_source_eq_model", "getitem_source_eq_model"],
     "call": ["is_safe_callable_source_eq_model", "call_source_eq_model"],
@@ -717,7 +738,7 @@ def emit(src_root, want=SECTIONS):
     banner = "(* =================================================================="
     parts = full.split(banner)
     head, secs = parts[0], parts[1:]
-    order = ["mkm", "internal", "safe", "imm", "access", "call", "immcall"]
+    order = ["mkm", "internal", "safe", "other", "imm", "access", "call", "immcall"]
     if len(secs) != len(order):
         raise AssertionError("template sections changed")
     need = set()
